@@ -493,7 +493,11 @@ class Interp:
                 self.assign(s.target, x, env)
                 if lc is not None:
                     # the loop body is replaced by its contract (proved by its own obligation)
-                    lc(self, env); self.used_contracts.add('loop body %s#%d' % s._loopkey); continue
+                    try: lc(self, env)
+                    except (NameError, KeyError, AttributeError, IndexError) as e:
+                        # the contract names locals / attributes of the loop it replaces: if they are gone the CONTRACT is out of date
+                        raise EngineError('loop contract of %s#%d does not fit the current code (%s: %s)' % (s._loopkey + (type(e).__name__, e)))
+                    self.used_contracts.add('loop body %s#%d' % s._loopkey); continue
                 try: yield from self.exec_block(s.body, env)
                 except Break: break
                 except Continue: continue
